@@ -16,7 +16,7 @@ pub struct Env {
     pub seed: u64,
 }
 
-pub const RT_PROPS: &[&str] = &["C01"];
+pub const RT_PROPS: &[&str] = &["C01", "C03", "C04", "C06", "C07", "C09", "C10", "C11", "C12", "C13", "C14", "C16"];
 
 fn main() {
     let args: Vec<String> = std::env::args().collect();
